@@ -41,7 +41,7 @@ DELEG = ('::sampleUniform', '::samplePhsRejectBounds', '::sampleBoundsRejectPhs'
 
 
 class InformedClient(paths.Client):
-    """auto = (kind, passed, pending, fresh, infinite)
+    """auto = (kind, passed, pending, fresh, infinite, kept)   kept: the 1/K thinning (keepSample) came out true since the last PHS draw
     kind: None | 'base' | 'phs' | 'deleg' | 'copy' | 'other';  passed: frozenset of (test, state key);
     pending: frozenset of (test, state key, node id)"""
     fork_bools = True
@@ -72,7 +72,7 @@ class InformedClient(paths.Client):
         return key(fn, nid) or fn.fp(n['id'])
 
     def init(self, fn):
-        return (None, frozenset(), frozenset(), False, False)
+        return (None, frozenset(), frozenset(), False, False, False)
 
     def costed_state(self, fn, nid):
         """the state whose heuristic cost an expression denotes"""
@@ -87,7 +87,7 @@ class InformedClient(paths.Client):
         return None
 
     def on_node(self, fn, node, auto, ctx):
-        kind, passed, pending, fresh, inf = auto
+        kind, passed, pending, fresh, inf, kept = auto
         c = node.get('callee')
         if c is not None and self.minp and c.split('::')[-1] in ('isCostBetterThan', 'isCostEquivalentTo'):
             # minCost test:  isCostEquivalentTo(minCost, c) || isCostBetterThan(minCost, c)  -- registered at its first operand,
@@ -109,24 +109,28 @@ class InformedClient(paths.Client):
                             st = self.costed_state(fn, a[1])
                     if ok and st:
                         pending = pending | {('min', st, (par['id'], l['id'], r['id']))}
-                        return (kind, passed, pending, fresh, inf)
+                        return (kind, passed, pending, fresh, inf, kept)
         if c is None:
             return auto
         a = args(fn, node)
         short = c.split('::')[-1]
         if short == 'getInformedSubstate' and a and self.skey(fn, a[0]) == self.out:
-            return (kind, passed, pending, True, inf)
+            return (kind, passed, pending, True, inf, kept)
+        if short == 'uniformProlateHyperspheroid':
+            return (kind, passed, pending, fresh, inf, False)            # a new PHS draw: not thinned yet
+        if short == 'keepSample':
+            return (kind, passed, pending | {('keep', '#', (node['id'],))}, fresh, inf, kept)
         if short == 'satisfiesBounds' and a:
-            return (kind, passed, pending | {('bounds', self.skey(fn, a[0]), (node['id'],))}, fresh, inf)
+            return (kind, passed, pending | {('bounds', self.skey(fn, a[0]), (node['id'],))}, fresh, inf, kept)
         if short == 'isInAnyPhs':
             if fresh:
                 pending = pending | {('phs', self.out, (node['id'],))}
-            return (kind, passed, pending, fresh, inf)
+            return (kind, passed, pending, fresh, inf, kept)
         if short == 'isCostBetterThan' and len(a) == 2 and (fn.strip(a[1]) or {}).get('name') in self.maxp:
             st = self.costed_state(fn, a[0])
             if st:
                 pending = pending | {('cost<', st, (node['id'],))}
-            return (kind, passed, pending, fresh, inf)
+            return (kind, passed, pending, fresh, inf, kept)
         # writes of the output state
         writes_out = False
         for i in node.get('wargs') or []:
@@ -134,19 +138,19 @@ class InformedClient(paths.Client):
                 writes_out = True
         if writes_out:
             if c.endswith('StateSampler::sampleUniform') and 'Informed' not in c and 'InfSampler' not in c:
-                return ('base', frozenset(), frozenset(), False, inf)
+                return ('base', frozenset(), frozenset(), False, inf, False)
             if short == 'createFullState':
-                return ('phs', frozenset(), frozenset(), False, inf)
+                return ('phs', frozenset(), frozenset(), False, inf, kept)
             if short == 'copyState' and len(a) == 2:
                 s = self.skey(fn, a[1])
-                return ('copy', frozenset((t, self.out) for (t, k) in passed if k == s), frozenset(), False, inf)
+                return ('copy', frozenset((t, self.out) for (t, k) in passed if k == s), frozenset(), False, inf, kept)
             if any(c.endswith(d) for d in DELEG) and ('InfSampler' in c or 'InformedSampler' in c):
-                return ('deleg', frozenset(), frozenset({('deleg', self.out, (node['id'],))}), False, inf)
-            return ('other:' + short, frozenset(), frozenset(), False, inf)
+                return ('deleg', frozenset(), frozenset({('deleg', self.out, (node['id'],))}), False, inf, kept)
+            return ('other:' + short, frozenset(), frozenset(), False, inf, kept)
         return auto
 
     def learn(self, fn, node, value, auto, ctx):
-        kind, passed, pending, fresh, inf = auto
+        kind, passed, pending, fresh, inf, kept = auto
         if node.get('id') is None:
             return auto
         if (node.get('callee') or '').endswith('::isFinite') and value is False:
@@ -156,36 +160,44 @@ class InformedClient(paths.Client):
             if value:
                 # any operand of a disjunction (or the test itself) being true establishes it
                 pending = pending - set(hit)
-                passed = passed | {(t, k) for (t, k, _) in hit}
+                passed = passed | {(t, k) for (t, k, _) in hit if t != 'keep'}
+                if any(t == 'keep' for (t, k, _) in hit):
+                    kept = True
             else:
                 single = [p for p in hit if len(p[2]) == 1 or node['id'] == p[2][0]]
                 pending = pending - set(single)
-        return (kind, passed, pending, fresh, inf)
+        return (kind, passed, pending, fresh, inf, kept)
 
     def at_exit(self, fn, ret, auto, ctx):
         rv = ctx.eval(ret['ch'][0]) if ret is not None and ret['ch'] else None
         if ret is not None and ret['ch']:
             rn = fn.strip(ret['ch'][0])
-            kind, passed, pending, fresh, inf = auto
+            kind, passed, pending, fresh, inf, kept = auto
             hit = [p for p in pending if rn is not None and rn['id'] in p[2]]
             if hit:
                 # the test itself is returned: a true result is its verdict
-                auto = (kind, passed | {(t, k) for (t, k, _) in hit}, pending - set(hit), fresh, inf)
+                auto = (kind, passed | {(t, k) for (t, k, _) in hit}, pending - set(hit), fresh, inf, kept)
         self.exits.append((auto, rv, ctx.path()))
 
 
 def verdict(cl, auto):
     """None when the exit state justifies a true result, else the reason"""
-    kind, passed, pending, fresh, inf = auto
+    kind, passed, pending, fresh, inf, kept = auto
     tests = {t for (t, k) in passed if k == cl.out}
     if kind is None:
         return 'no write of the output state'
     if kind == 'base':
         if not (inf or 'phs' in tests or 'cost<' in tests):
             return 'a state drawn from the space bounds is accepted without a PHS-membership or heuristic-cost test since its last write'
+        if kept:
+            return 'a state drawn uniformly from the space bounds is additionally thinned by keepSample (1/K): regions covered by ' \
+                   'several hyperspheroids get 1/K of the uniform density'
     elif kind == 'phs':
         if 'bounds' not in tests:
             return 'a state built from a PHS draw is accepted without satisfiesBounds since its last write'
+        if not kept:
+            return 'a state drawn from one of several overlapping hyperspheroids is accepted without the 1/K thinning (keepSample) ' \
+                   'since that draw: overlaps are over-sampled'
     elif kind == 'deleg':
         if 'deleg' not in tests:
             return 'the verdict of the delegated draw is not what is returned'
@@ -212,7 +224,8 @@ def r15a(rep, F):
                      'output state is `base` after baseSampler_->sampleUniform, `phs` after createFullState, `deleg` after another '
                      'informed draw, `copy` after copyState; acceptance tests are learned from branch outcomes and from the value of '
                      'the returned flag; every exit whose result may be true must carry the test that belongs to the last writer '
-                     '(phs: satisfiesBounds; base: isInAnyPhs on a fresh sub-state, or isCostBetterThan(heuristicSolnCost(state), '
+                     '(phs: satisfiesBounds and keepSample true since the PHS draw; base: isInAnyPhs on a fresh sub-state and no keepSample '
+                     'thinning, or isCostBetterThan(heuristicSolnCost(state), '
                      'maxCost), or an infinite bound; deleg: its verdict; two bounds: the minCost disjunction).  '
                      'OrderedInfSampler::createBatch may queue a state only when the draw that filled it returned true')
     n = 0
@@ -589,6 +602,39 @@ def r15f(rep, F):
         rep.add('R15f', fn.name, 'flag-discipline', ok, fn.where(fn.nodes[fn.body]),
                 'flag cleared before / set after the data it guards' if ok else (cl.bad[0][0] if cl.bad else extra),
                 cl.bad[0][1] if cl.bad else None)
+    # postcondition of setTransverseDiameter(d): on every non-throwing path the stored diameter equals d -- it is assigned d, or
+    # the path condition is stored == d
+    fn = [f for f in F.by_name.get(PHS + '::setTransverseDiameter', []) if f.body][0]
+    dpar = Poly.atom(('S', 'd'))
+    m = sym.Machine(F, sym.Ctx(inline=sym.resolver(F, deny=('updateTransformation', 'log'))))
+    m.split = 'all'
+    st = {'env': {fn.params[0]['did']: dpar}, 'heap': [], 'alias': {}, 'this': ('T',), 'facts': []}
+    try:
+        r = m.block(fn, [fn.body], st)
+        leaves = sym.leaves(r, st)
+    except Unsupported as e:
+        raise AnalysisBroken('R15f: setTransverseDiameter outside the fragment: %s' % e)
+    tref = ('F', ('F', ('T',), 'dataPtr_'), 'transverseDiameter_')
+    stored = Poly.atom(('rd', tref))
+    bad = []
+    for facts_, lst, lr in leaves:
+        if lr == ('throw',):
+            continue
+        val = None
+        for k, v, q in lst['heap']:
+            if k == tref:
+                val = v
+        if val is not None:
+            if not (isinstance(val, Poly) and val == dpar):
+                bad.append('a path stores %s' % sym.show(val))
+            continue
+        eq = sym.cmp0('eq0', stored - dpar, None)
+        if eq not in facts_:
+            bad.append('a path returns without storing the requested diameter although it may differ from the stored one (condition: %s)'
+                       % '; '.join(sym.show(x)[:120] for x in facts_))
+    n += 1
+    rep.add('R15f', fn.name, 'stores-the-requested-diameter', not bad and bool(leaves), fn.where(fn.nodes[fn.body]),
+            'on every path the stored diameter == the argument' if not bad else bad[0])
     for meth in ('transform',):
         fs = [f for f in F.by_name.get(PHS + '::' + meth, []) if f.body]
         fn = fs[0]
@@ -604,7 +650,7 @@ def r15f(rep, F):
         n += 1
         rep.add('R15f', fn.name, 'guarded-by-flag', ok, fn.where(fn.nodes[fn.body]),
                 'throws unless up to date' if ok else 'transform does not start with `if (!isTransformUpToDate_) throw`')
-    rep.require_count('R15f', 'flag obligations', n, 4)
+    rep.require_count('R15f', 'flag obligations', n, 5)
 
 
 def r15g(rep, F):
